@@ -1343,6 +1343,41 @@ func writeSites(b *strings.Builder, root string, files []string, parsed map[stri
 			}
 		}
 	}
+	// WithOverallContextMiddleware: switch r.Header.Get("Content-Encoding") { case "": .. case "gzip": .. default: return New400Error }
+	var ceCases []string
+	ceDefault400 := false
+	for _, p := range files {
+		rel, _ := filepath.Rel(root, p)
+		if rel != "controller/middleware.go" {
+			continue
+		}
+		ast.Inspect(parsed[p], func(n ast.Node) bool {
+			sw, ok := n.(*ast.SwitchStmt)
+			if !ok || sw.Tag == nil || !strings.Contains(exprString(sw.Tag), "Content-Encoding") {
+				return true
+			}
+			for _, cc := range sw.Body.List {
+				cl := cc.(*ast.CaseClause)
+				if cl.List == nil {
+					for _, st := range cl.Body {
+						if r, ok := st.(*ast.ReturnStmt); ok && len(r.Results) == 1 {
+							if c, ok := r.Results[0].(*ast.CallExpr); ok && calleeName(c.Fun) == "New400Error" {
+								ceDefault400 = true
+							}
+						}
+					}
+					continue
+				}
+				for _, e := range cl.List {
+					ceCases = append(ceCases, strArg(e))
+				}
+			}
+			return false
+		})
+	}
+	b.WriteString("\n(* the Content-Encoding values WithOverallContextMiddleware accepts; its default branch returns a 400 error *)\n")
+	b.WriteString("Definition gen_content_encodings : list string := " + strList(ceCases) + ".\n")
+	fmt.Fprintf(b, "Definition gen_content_encoding_default_400 : bool := %v.\n", ceDefault400)
 	// golangPprof.go Parse: how many profiles one pprof body yields (appends to the result, and whether one is in a loop)
 	parseAppends, parseInLoop := 0, false
 	for _, p := range files {
